@@ -74,18 +74,19 @@ def check(ctx):
                 signature="forecast_cum binding", got={k: nf.show(it.to_nf(x), 60) for k, x in a.items()},
             )
     # ---- fit
-    it = interp(ctx, opaque={LAW})
+    it = interp(ctx, opaque={LAW}, opaque_methods={"regularize_initial_guess"})
     m, paths = run_method(it, "fit")
     rets = returns(paths)
-    arms = {}
+    arms = []
     for p in rets:
         arm = next((c for _k, c, d in p.decisions if d == "tau is None"), None)
-        arms[arm] = p
-    if set(arms) != {True, False}:
+        arms.append((arm, p))
+    if {a for a, _p in arms} != {True, False}:
         raise AnalysisError("ForecasterOnePhase.fit: expected the two arms `tau is None` / given")
     reg = bc.lookup("regularize_initial_guess")
-    for free_tau, p in arms.items():
-        tag = "tau fitted" if free_tau else "tau supplied"
+    for free_tau, p in arms:
+        other = [("" if c else "not ") + d[:50] for _k, c, d in p.decisions if d != "tau is None"]
+        tag = ("tau fitted" if free_tau else "tau supplied") + ("; " + ", ".join(other) if other else "")
         cf = [e for e in p.events if e.kind == "ext_call" and e.data["callee"] == "scipy.optimize.curve_fit"]
         if len(cf) != 1:
             raise AnalysisError(f"fit [{tag}]: expected one curve_fit call")
@@ -104,8 +105,11 @@ def check(ctx):
             ctx.check(b is not None and it.to_nf(b) == nf.sym("self.bounds.M"), "C05-d", m.qualname + f":bounds [{tag}]", where, "with a supplied tau, curve_fit is bounded by the M limits", signature="bounds missing", bounds=str(b)[:120])
         p0 = a.get("p0")
         regs = [e for e in p.events if e.kind == "int_call" and e.data["callee"] == reg.qualname]
-        okp = len(regs) == 1 and isinstance(p0, TupV) and isinstance(regs[0].data["args"]["guess"], TupV) and p0 is regs[0].data["args"]["guess"]
-        ctx.check(okp, "C05-d", m.qualname + f":first guess regularised [{tag}]", where, "the first guess handed to curve_fit is the one moved inside the bounds by regularize_initial_guess", signature="p0 not regularised")
+        p0n = it.to_nf(p0) if p0 is not None else {}
+        at = it.single_atom(p0n)
+        okp = len(regs) == 1 and at is not None and at[0] == "fn" and at[1] == reg.qualname
+        ctx.check(okp, "C05-d", m.qualname + f":first guess regularised [{tag}]", where, "the first guess handed to curve_fit is the value returned by regularize_initial_guess (moved inside the bounds)", signature="p0 not regularised", p0=nf.show(p0n, 160))
+        raw_guess = regs[0].data["args"]["guess"] if regs else None
         # C05-e closure signature and law call inside the closure
         fv = a.get("f")
         if not isinstance(fv, FuncV):
@@ -134,8 +138,8 @@ def check(ctx):
                     signature="model binding", got={k: nf.show(it2.to_nf(x), 60) for k, x in ca.items()},
                 )
         # first guess roles
-        if isinstance(p0, TupV):
-            g = [it.to_nf(x) for x in p0.items]
+        if isinstance(raw_guess, TupV):
+            g = [it.to_nf(x) for x in raw_guess.items]
             okg = len(g) == (2 if free_tau else 1) and nf.depends(g[0], "cum_production") and not nf.depends(g[0], "time_on_production")
             if free_tau and len(g) == 2:
                 okg = okg and nf.depends(g[1], "time_on_production") and not nf.depends(g[1], "cum_production")
